@@ -31,7 +31,12 @@ ASSUMPTIONS = [
 NAMES = ["A", "a", "B", "", "A:1", "1", "count"]
 PROBES = ["A", "a", "B", "b", "", "UNKNOWN", "unknown", "1", "A:1", "a:1", "A:2", "Z", "count", "COUNT"]
 DEPTH = {"quick": 4, "thorough": 6}
-ROOTS = ["empty", "empty-ci", "read-preserve", "read-upper"]
+ROOTS = ["empty", "empty-ci", "read-preserve", "read-upper", "read-upper-emptyP", "read-lower-emptyP", "read-preserve-emptyP"]
+# whether the section compares case-insensitively follows from how it was made, not from the object's own flag
+ROOT_CI = {"empty": False, "empty-ci": True, "read-preserve": False, "read-upper": True,
+           "read-upper-emptyP": True, "read-lower-emptyP": True, "read-preserve-emptyP": False}
+EMPTY_P_FILE = ("~V\nVERS. 2.0 :\nWRAP. NO :\n~W\nSTRT.M 1 :\nSTOP.M 2 :\nSTEP.M 1 :\nNULL. -999.25 :\n~P\n# nothing here\n\n"
+                "~C\nD.M : depth\n~A\n1\n2\n")
 LIST_ATTRS = set(dir(list)) | set(dir(SectionItems))
 
 
@@ -47,8 +52,23 @@ def alphabet(n):
     return ops
 
 
+_EMPTY = {}
+
+
+def _root(root):
+    if root.endswith("-emptyP"):
+        if root not in _EMPTY:
+            import lasio
+            # read once per process; the comparison mode of the (empty) section is whatever the reader gave it
+            _EMPTY[root] = bool(lasio.read(EMPTY_P_FILE, mnemonic_case=root.split("-")[1]).params.mnemonic_transforms)
+        sec = SectionItems()
+        sec.mnemonic_transforms = _EMPTY[root]
+        return sec, None, HeaderItem
+    return c13.make_root(root)
+
+
 def build(root, history):
-    section, las, factory = c13.make_root(root)
+    section, las, factory = _root(root)
     for step, op in enumerate(history):
         if op[0] == "append":
             section.append(c13.new_item(factory, op[1], step))
@@ -74,7 +94,7 @@ def probe_state(root, history):
     vio = []
     n = 0
     base = build(root, history)
-    ci = bool(base.mnemonic_transforms)
+    ci = ROOT_CI[root]
     keys = [i.mnemonic for i in base]
     L = len(base)
 
@@ -220,14 +240,19 @@ def probe_state(root, history):
     # slices
     s = build(root, history)
     ref = list(list.__iter__(s))
-    for sl, name in ((slice(None), "[:]"), (slice(1, None), "[1:]"), (slice(None, -1), "[:-1]"), (slice(None, None, 2), "[::2]")):
+    for sl, name in ((slice(None), "[:]"), (slice(1, None), "[1:]"), (slice(None, -1), "[:-1]"), (slice(None, None, 2), "[::2]"),
+                     (slice(None, None, -1), "[::-1]"), (slice(2, None), "[2:]")):
         n += 1
+        before = snap(s)
+        want_names = [i.mnemonic for i in ref[sl]]
         try:
             got = s[sl]
             if len(got) != len(ref[sl]) or any(a is not b for a, b in zip(list.__iter__(got), ref[sl])):
-                vio.append(V("slice", name, [i.mnemonic for i in ref[sl]], [i.mnemonic for i in got]))
+                vio.append(V("slice", name, want_names, [i.mnemonic for i in got]))
         except Exception as e:
             vio.append(V("slice", name, "list semantics", repr(e)))
+        if snap(s) != before:
+            vio.append(V("slice-mutates-section", name, [b[1] for b in before], [b[1] for b in snap(s)]))
     return vio, n
 
 
